@@ -17,6 +17,7 @@ import (
 	"strconv"
 	"strings"
 	"sync"
+	"sync/atomic"
 	"time"
 )
 
@@ -79,6 +80,12 @@ type Check struct {
 	DeadlineT  time.Duration
 	MinStates  int64
 	WorkerJobs int // recycle worker after this many jobs (0 = never)
+	// StuckAfter, if set, makes a worker that reports no progress (engine.Tick) for this long a
+	// dead worker: it is killed, the job is re-run alone twice with the same limit, and if it
+	// gets stuck there too this is a violation (the code under test blocked the thread that
+	// feeds it - a leaked lock, for instance). Only for checks whose executions take
+	// milliseconds.
+	StuckAfter time.Duration
 	// Race, if set, is the free-running pass: the same operations as the scheduled harnesses on
 	// real goroutines with pass-through shims, run in a binary built with -race. It guards the
 	// one assumption of the cooperative scheduler (every shared access goes through a hooked
@@ -89,6 +96,11 @@ type Check struct {
 var registry = map[string]*Check{}
 
 func Register(c *Check) { registry[c.ID] = c }
+
+var progress atomic.Int64
+
+// Tick records that the running job has finished one more execution (heartbeat for StuckAfter).
+func Tick() { progress.Add(1) }
 
 var races = map[string]func(string, *Result){}
 
@@ -212,14 +224,28 @@ func workerLoop(c *Check, tier string, deadline time.Time) {
 	in := bufio.NewScanner(os.Stdin)
 	in.Buffer(make([]byte, 1<<20), 1<<20)
 	out := bufio.NewWriter(os.Stdout)
+	var outMu sync.Mutex
+	if c.StuckAfter > 0 {
+		go func() {
+			for {
+				<-time.After(2 * time.Second) // not time.Sleep: the net harness' quiescence barrier counts a sleeping goroutine as still moving
+				outMu.Lock()
+				fmt.Fprintf(out, "BEAT %d\n", progress.Load())
+				out.Flush()
+				outMu.Unlock()
+			}
+		}()
+	}
 	for in.Scan() {
 		job := in.Text()
 		if job == "" {
 			continue
 		}
 		// write-ahead marker so the parent knows which job killed us
+		outMu.Lock()
 		fmt.Fprintf(out, "START %s\n", job)
 		out.Flush()
+		outMu.Unlock()
 		var r *Result
 		if time.Now().After(deadline) {
 			r = &Result{Job: job, Exhaustive: false, Caps: []string{"deadline: job not started"}}
@@ -228,8 +254,10 @@ func workerLoop(c *Check, tier string, deadline time.Time) {
 		}
 		r.Job = job
 		b, _ := json.Marshal(r)
+		outMu.Lock()
 		fmt.Fprintf(out, "RESULT %s\n", b)
 		out.Flush()
+		outMu.Unlock()
 	}
 }
 
@@ -362,6 +390,27 @@ func orchestrate(c *Check, tier string, nproc int) int {
 				done := 0
 				current := ""
 				died := false
+				var lastBeat atomic.Int64 // unix nanos of the last observed progress
+				var stuck atomic.Bool
+				lastBeat.Store(time.Now().UnixNano())
+				stopWatch := make(chan struct{})
+				go func() {
+					for {
+						select {
+						case <-stopWatch:
+							return
+						case <-time.After(2 * time.Second):
+						}
+						// no progress for StuckAfter (checks that opted in), or - for every check -
+						// still no result ten minutes after the deadline every job honours
+						if (c.StuckAfter > 0 && time.Since(time.Unix(0, lastBeat.Load())) > c.StuckAfter) || time.Now().After(deadline.Add(10*time.Minute)) {
+							stuck.Store(true)
+							cmd.Process.Kill()
+							return
+						}
+					}
+				}()
+				lastN := int64(-1)
 				poisoned := false
 				recycle := false
 				for len(pending) > 0 {
@@ -396,6 +445,12 @@ func orchestrate(c *Check, tier string, nproc int) int {
 							}
 							gotResult = true
 						} else if strings.HasPrefix(line, "START ") {
+							lastBeat.Store(time.Now().UnixNano())
+						} else if strings.HasPrefix(line, "BEAT ") {
+							if n, e := strconv.ParseInt(line[5:], 10, 64); e == nil && n != lastN {
+								lastN = n
+								lastBeat.Store(time.Now().UnixNano())
+							}
 						} else if line != "" {
 							fmt.Fprintln(os.Stderr, "[worker] "+line)
 						}
@@ -411,6 +466,7 @@ func orchestrate(c *Check, tier string, nproc int) int {
 						pending = append(pending, nj)
 					}
 				}
+				close(stopWatch)
 				stdin.Close()
 				if poisoned {
 					cmd.Process.Kill()
@@ -418,18 +474,28 @@ func orchestrate(c *Check, tier string, nproc int) int {
 				err := cmd.Wait()
 				if died {
 					msg := fmt.Sprintf("worker process died while running job %q (%v); stderr tail:\n%s", current, err, tail.String())
+					if stuck.Load() {
+						msg = fmt.Sprintf("worker process made no progress (limit %v, or no result 10 minutes past the deadline) while running job %q and was killed; stderr tail:\n%s", c.StuckAfter, current, tail.String())
+					}
 					// confirm in isolation: the job must kill a fresh process twice more
 					confirmed := 0
 					for i := 0; i < 2; i++ {
 						if out, dead := runJobIsolated(c, current, tier); dead {
 							confirmed++
 							msg = fmt.Sprintf("process running job %q dies (fatal error / unrecovered panic / deadlock of all goroutines); output tail:\n%s", current, out)
+							if stuck.Load() {
+								msg = fmt.Sprintf("process running job %q stops making progress (the thread feeding the code under test is blocked for good: no execution finishes within %v); output tail:\n%s", current, c.StuckAfter, out)
+							}
 						}
 					}
 					mu.Lock()
 					if confirmed == 2 {
 						rp, _ := json.Marshal(map[string]interface{}{"job": current, "died": true, "tier": tier})
-						results = append(results, &Result{Job: current, Violations: []Violation{{Property: c.ID, Kind: "worker-died", Key: "crash:" + crashKey(msg), Detail: msg, Job: current, Replay: rp}}})
+						key := "crash:" + crashKey(msg)
+						if stuck.Load() {
+							key = "stuck:no execution finishes"
+						}
+						results = append(results, &Result{Job: current, Violations: []Violation{{Property: c.ID, Kind: "worker-died", Key: key, Detail: msg, Job: current, Replay: rp}}})
 					} else {
 						harnessErrs = append(harnessErrs, fmt.Sprintf("(not reproducible in isolation %d/2) %s", confirmed, msg))
 					}
@@ -746,9 +812,9 @@ func runJobIsolated(c *Check, job, tier string) (string, bool) {
 	select {
 	case err := <-done:
 		return firstLines(tail.String(), 25), err != nil
-	case <-time.After(5 * time.Minute):
+	case <-time.After(isolatedLimit(c)):
 		cmd.Process.Kill()
-		return "timed out after 5 minutes", true
+		return fmt.Sprintf("did not finish within %v", isolatedLimit(c)), true
 	}
 }
 
@@ -824,6 +890,14 @@ func raceKey(rep string) string {
 		}
 	}
 	return "unknown"
+}
+
+// isolatedLimit: how long a job re-run alone may take before it counts as dead.
+func isolatedLimit(c *Check) time.Duration {
+	if c.StuckAfter > 0 {
+		return 3 * c.StuckAfter
+	}
+	return 5 * time.Minute
 }
 
 // crashKey extracts a stable classifier from a crash message (first fatal/panic line).
